@@ -52,7 +52,7 @@ for _f, _n in (("B1", 25), ("B2", 20), ("B3", 5)):
 for _f, _n in (("Q1", 20), ("Q2", 12), ("Q3", 4), ("Q4", 3), ("C1", 15), ("C2", 5)):
     reg(_f, getattr(cue, "rule_" + _f), _n)
 
-for _f, _n in (("I1", 10), ("I2", 6), ("I3", 3), ("I4", 5), ("I5", 6), ("O1", 6), ("R1", 1)):
+for _f, _n in (("I1", 10), ("I2", 6), ("I3", 3), ("I4", 5), ("I5", 6), ("I6", 60), ("O1", 6), ("R1", 1)):
     reg(_f, getattr(isolation, "rule_" + _f), _n)
 
 for _f, _n in (("F1", 3), ("F2", 3), ("F3", 3), ("F4", 2), ("F5", 10), ("F6", 15)):
@@ -71,23 +71,24 @@ def _p(rules, explanation, extra_assumptions=()):
 NOT = " NOT decided (runtime remainder): "
 
 PROPS = {
-    "C01": _p(["L1a", "L2", "L8a", "S1", "S3", "S4p", "D1a", "D2", "D3a", "D4", "L7", "P7", "N1", "N9", "N5", "S5", "R1"],
+    "C01": _p(["L1a", "L2", "L8a", "S1", "S3", "S4p", "D1a", "D2", "D3a", "D4", "L7", "P7", "N1", "N9", "N5", "S5", "R1", "I6"],
               "Structural necessary conditions of byte-exact AKAI export: evaluated construct layouts of partition/volume/file-entry/sample-header "
               "(offset, width, sign, endianness, data-window terms offset = header_end + 2*play_start, size = 2*(play_end - play_start)) equal the reviewed "
               "reference (L1a, L2); both sample type bytes reach the sample parser (L8a); chain walk shape (S1), address maps (S3), multi-sector split "
               "accounting (S4p: all of S4 except the empty-request guard, which since the G13 repair no longer affects an export), clip/advance of reads (S5); SAT decoder exits install their links and only at END "
               "words (D1, D3) with the documented flag values (D2); segment/file streams built from get_path (D4); export walk hands every sample over once and "
-              "writes one truncated 'wb' file per `Exported` line with the header's rate (P7, L7); streams rewound before export (R1)." + NOT +
+              "writes one truncated 'wb' file per `Exported` line with the header's rate (P7, L7); streams rewound before export (R1); the shared construct "
+              "objects keep no per-partition state (I6: the allocation table of partition A is never reused for partition B)." + NOT +
               "byte equality of outputs; that the decoded SAT equals the intended allocation for every table; directory reserved-run handling beyond D1/D3. "
               "Known finding G7 (head-not-lowest chains are truncated) is reported as KNOWN-FINDING.",
               ["the reviewed layout reference (sa/reference/layouts.json) matches the AKAI S1000/S3000 format as documented (140-byte sample header, 150-byte keygroup)"]),
-    "C02": _p(["L1r", "L2", "L4", "L5", "L8r", "D1r", "D2", "D3r", "D4", "S3", "S7", "T1", "O1", "I5", "N1", "N9", "S4p", "S5"],
+    "C02": _p(["L1r", "L2", "L4", "L5", "L8r", "D1r", "D2", "D3r", "D4", "S3", "S7", "T1", "O1", "I5", "N1", "N9", "S4p", "S5", "I6"],
               "Structural necessary conditions of byte-exact Roland export: record addressing terms ENTRY_SIZE*index + AREA_OFFSET per kind/area with MAX_NUM bounds "
               "(L4), contiguous area geometry (L5), struct sizes = the repository's constants (L2), full evaluated layout of the image struct against the reviewed "
               "reference (L1r); loop mode -> window [2*start, 2*(END-start+1)) with END per mode and StreamReversed for exactly the two reverse modes, handler map total "
               "over the 7 modes (L8r, S7); cluster_top slicing and fat_entry chain (D4); FAT decoder terminates, installs links only at END words, raises only for "
               "malformed tables (T1, D1, D3, D2); per-performance collection loops and orphan detection over DISTINCT referenced performances (O1); routines at every "
-              "level (N1)." + NOT + "byte equality; np.isin orphan mask semantics; FAT version handling of directory links."),
+              "level (N1); shared construct objects keep no per-parse state (I6)." + NOT + "byte equality; np.isin orphan mask semantics; FAT version handling of directory links."),
     "C03": _p(["L8c", "T1", "P5", "C2", "Q4", "Q2", "Q1", "R1", "P8"],
               "Decides the CDDA window clauses as E-AFF terms: MSF polynomial 4500m+75s+f, 2352-byte sectors, per-track offset = 2352*first_index(cur) and "
               "offset+size = 2352*first_index(next) (tiling identity: no gap, no overlap), last track to end_of_file, first INDEX used, walk advances with each emitted "
@@ -134,10 +135,11 @@ PROPS = {
               "level (N1, N2, N7) and are blank-stripped (N4); every lookup failure inside parse_path is converted to ErrorInvalidPath, ls prints it and returns; whole path stripped, "
               "split on / and \\, trailing empty token dropped (N8); tokeniser loop terminates (T1)." + NOT +
               "that normalisation after de-duplication cannot merge two names (case/blank variants); blank names; error-free rendering of every item."),
-    "C11": _p(["S6", "S5", "S8", "L1a", "L1r", "D4", "S1"],
+    "C11": _p(["S6", "S5", "S8", "L1a", "L1r", "D4", "S1", "I6"],
               "Decides: every site that reads an underlying stream (StreamWrapper.read, SectorStream._read_sector, StreamReversed via read) re-establishes that stream's cursor from its own "
               "state on every path - tell/compare/_seek(position) or absolute seek to the sector address immediately before the read; raw readers are called only from those layers (S6); "
-              "no subclass bypasses read (S5); parse-time probes restore positions (S8); shared partition / data-area windows have the recorded offset/size terms (L1a, L1r)." + NOT +
+              "no subclass bypasses read (S5); parse-time probes restore positions (S8); shared partition / data-area windows have the recorded offset/size terms (L1a, L1r); the construct objects shared by all "
+              "volumes keep no allocation table or stream from an earlier parse (I6)." + NOT +
               "the schedule enumeration; reads performed inside construct on the raw handle."),
     "C12": _p(["P4", "P5", "P6"],
               "Decides: zip / parallel indexing only combines lists of one index domain (per stream vs per channel), interprocedurally for the swap flags (P4); byte-order predicates vs "
@@ -160,11 +162,12 @@ PROPS = {
               "Decides: a short sector read is detected on every returning path of SectorStream._read (S4e) and ends the data stream instead of aborting (S9); partition scan leaves its "
               "loop on the first unparsable header (T1-STREAM-PARSE exits); length prefixes wrap the streamed data (L1w); unreadable files are skipped without stopping the remaining ones "
               "(I1); whole-frame blocks (P5); the last CDDA track runs to the end of the file as it is (L8c)." + NOT + "prefix equality; which files are reported for which cut."),
-    "C16": _p(["I2", "I3", "R1", "N2", "N7", "S6", "S8", "N5", "N4", "L8r"],
+    "C16": _p(["I2", "I3", "R1", "N2", "N7", "S6", "S8", "N5", "N4", "L8r", "I6"],
               "Decides: accumulating / position-dependent realisers run once under a flag they always set (I2); no write-capable call outside the export path, inputs opened read-only "
               "(I3, N5); data streams are rewound before every export (R1); both actions install both naming routines before traversing, so what an operation sees does not depend on which "
               "ran first (N2); names recomputed from raw names (N7); no read depends on where an earlier operation left the shared cursor (S6, S8); name sanitising is a function of (raw name, "
-              "file/directory flag) only (N4); Roland sample realisation derives its window from the stored stream without replacing it (L8r)." + NOT +
+              "file/directory flag) only (N4); Roland sample realisation derives its window from the stored stream without replacing it (L8r); construct singletons are not written "
+              "to after construction (I6)." + NOT +
               "equality across operation histories; effects of context mutation in wrap_child_realization."),
     "C17": _p(["Q1", "Q2", "Q3", "Q4", "T1"],
               "Decides: the four line regexes are case-insensitive, tolerate leading blanks, match their keyword and capture the documented groups (Q1); blank lines are judged on the fully "
